@@ -26,7 +26,7 @@ FUNCTIONS = ["Operator::evaluate", "Value::to_number", "Value::as_string_ref", "
              "RustRuleEngine::evaluate_single_condition", "RustRuleEngine::execute_action", "RustRuleEngine::is_retracted"]
 REPLAY_DEPS = ""
 TREES = ["L", "!L", "L&L", "L|L", "L&(L|L)", "!(L&L)", "(L|L)&!L", "!(L|(L&L))"]
-FIELDS = ["x", "y", "missing", "obj.n"]
+FIELDS = ["x", "y", "missing", "obj.n", "s"]
 CMP = ["Equal", "NotEqual", "GreaterThan", "GreaterThanOrEqual", "LessThan", "LessThanOrEqual"]
 FACT_INTS = [-2, 0, 1, 3]
 EXPR_INTS = [-3, 0, 2, 7]
@@ -34,7 +34,7 @@ SHAPES = ["a + b * c", "a * b + c", "a - b - c", "a - b + c", "a * b * c", "a + 
           "a * b / c", "a + 2 * b", "10 - a - b"]
 INTS = [-1, 0, 1, 5, 2**53, 2**53 + 1, -2**63, 2**63 - 1]
 FLOATS = [0.0, -0.0, 5.0, 1.5, -1.0, float("inf"), float("nan")]
-STRS = ["", "a", "ab", "b", "null", "5", "5.0", " 5", "1e1", "abc", "NaN"]
+STRS = ["", "a", "ab", "b", "null", "5", "5.0", " 5", "1e1", "abc", "NaN", "-3", ".5", "+2"]
 OPS = ["Equal", "NotEqual", "GreaterThan", "GreaterThanOrEqual", "LessThan", "LessThanOrEqual", "Contains",
        "NotContains", "StartsWith", "EndsWith", "Matches", "In"]
 TIERS = {
@@ -176,7 +176,7 @@ def ref_eval(shape, env):
 
 
 def run(mode, shapes=0, trees=0, witness=False):
-    h = Harness(FILES, cap=4, loop_bound=6, rec_bound=4)
+    h = Harness(FILES, cap=8, loop_bound=8, rec_bound=4)
     ip = h.ip
     vi = {n: i for i, (n, _) in enumerate(ip.enums["Value"])}
     oi = {n: i for i, (n, _) in enumerate(ip.enums["Operator"])}
@@ -223,6 +223,7 @@ def run(mode, shapes=0, trees=0, witness=False):
         h.cover(a.v > b.v, "a > b")
     elif mode == "engine":
         # the REAL engine decides whether one rule fires; its condition is a symbolic tree
+        ip.split_fns = {"evaluate_expression", "Facts::get_nested"}   # text-scanning functions: case split on the symbolic name
         oi_ = oi
         li = {n: i for i, (n, _) in enumerate(ip.enums["LogicalOperator"])}
         ai = {n: i for i, (n, _) in enumerate(ip.enums["ActionType"])}
@@ -240,14 +241,19 @@ def run(mode, shapes=0, trees=0, witness=False):
         fv["obj.n"] = (True, ni)
         ip.call("Facts::set", [fr, S("obj"), En("Value", vi["Object"], {vi["Object"]: [Mp([[True, S("n"), nv]])]})])
         fv["missing"] = (False, z3.IntVal(0))
+        # s holds the STRING "x" (a string value that happens to name another fact)
+        has_s = h.bool("has_s")
+        with ip.under(has_s):
+            ip.call("Facts::set", [fr, S("s"), mk(ip, vi, ("str", "x"))])
+        fv["s"] = (has_s, z3.IntVal(0))
         leaves = []
 
         def leaf(idx):
             fi = h.int("leaf%d_field" % idx, 0, len(FIELDS) - 1).v
             op = h.int("leaf%d_op" % idx, 0, len(CMP) - 1).v
-            rk = h.int("leaf%d_rhs_kind" % idx, 0, 3).v      # 0 int literal, 1 field reference (string naming a fact), 2 null, 3 string naming nothing
+            rk = h.int("leaf%d_rhs_kind" % idx, 0, 4).v      # 0 int literal, 1 field reference (string naming a fact), 2 null, 3 string naming nothing, 4 field reference as Value::Expression
             rint = h.int("leaf%d_rhs_int" % idx, 0, len(FACT_INTS) - 1).v
-            rref = h.int("leaf%d_rhs_ref" % idx, 0, 1).v       # x or y
+            rref = h.int("leaf%d_rhs_ref" % idx, 0, 2).v       # x, y or s
             fs = S(FIELDS[-1])
             for j in range(len(FIELDS) - 2, -1, -1):
                 fs = ite(fi == j, S(FIELDS[j]), fs)
@@ -257,26 +263,31 @@ def run(mode, shapes=0, trees=0, witness=False):
             lit = mk(ip, vi, ("int", FACT_INTS[-1]))
             for j in range(len(FACT_INTS) - 2, -1, -1):
                 lit = ite(rint == j, mk(ip, vi, ("int", FACT_INTS[j])), lit)
-            refv = ite(rref == 0, mk(ip, vi, ("str", "x")), mk(ip, vi, ("str", "y")))
-            rhs = ite(rk == 0, lit, ite(rk == 1, refv, ite(rk == 2, mk(ip, vi, ("null", None)), mk(ip, vi, ("str", "zzz")))))
+            refv = ite(rref == 0, mk(ip, vi, ("str", "x")), ite(rref == 1, mk(ip, vi, ("str", "y")), mk(ip, vi, ("str", "s"))))
+            exprv = En("Value", vi["Expression"], {vi["Expression"]: [ip.deref(refv).pl[vi["String"]][0]]})
+            rhs = ite(rk == 0, lit, ite(rk == 1, refv, ite(rk == 2, mk(ip, vi, ("null", None)), ite(rk == 3, mk(ip, vi, ("str", "zzz")), exprv))))
             c = h.call("Condition::new", [fs, En("Operator", opt_, {}), rhs])
             # reference truth of the leaf ------------------------------------------------
             def fact(name):       # (present, candidate index)
                 return fv[name]
             lp, lidx = False, z3.IntVal(0)
+            l_is_str = band(fi == FIELDS.index("s"), has_s)                 # the only string-valued field; its text is "x"
             for j, f_ in enumerate(FIELDS):
                 p_, i_ = fact(f_)
                 lp = bor(lp, band(fi == j, p_))
                 lidx = z3.If(fi == j, i_, lidx)
-            # rhs value: kind 0 -> int; 1 -> referenced fact if present else the string itself; 2 -> null; 3 -> string
+            l_is_int = band(lp, bnot(l_is_str))
+            # rhs: kind 0 int literal; 1 the referenced fact's value if it exists, else the naming string itself; 2 null; 3 the string "zzz"
             rp_x, ri_x = fact("x")
             rp_y, ri_y = fact("y")
-            ref_present = ite(rref == 0, rp_x, rp_y)
+            ref_present = ite(rref == 0, rp_x, ite(rref == 1, rp_y, has_s))
             ref_idx = z3.If(rref == 0, ri_x, ri_y)
-            r_is_int = bor(rk == 0, band(rk == 1, ref_present))
+            isref = bor(rk == 1, rk == 4)
+            r_is_int = bor(rk == 0, band(isref, ref_present, rref != 2))
             r_idx = z3.If(rk == 0, rint, ref_idx)
             r_is_null = rk == 2
-            r_is_str = bor(rk == 3, band(rk == 1, bnot(ref_present)))
+            # the right-hand side is the text "x" when it refers to s (which holds "x"), or names the absent fact x
+            r_text_x = bor(band(isref, rref == 2, has_s), band(rk == 1, rref == 0, bnot(rp_x)))
 
             def ival(idx_):
                 e = z3.IntVal(FACT_INTS[-1])
@@ -284,8 +295,8 @@ def run(mode, shapes=0, trees=0, witness=False):
                     e = z3.If(idx_ == j, FACT_INTS[j], e)
                 return e
             lv_, rv_ = ival(lidx), ival(r_idx)
-            both_int = band(lp, r_is_int)
-            eq = bor(band(both_int, lv_ == rv_), band(bnot(lp), r_is_null))          # missing reads as null; null == null; the strings used here are never "null"
+            both_int = band(l_is_int, r_is_int)
+            eq = bor(band(both_int, lv_ == rv_), band(bnot(lp), r_is_null), band(l_is_str, r_text_x))
             ordr = {"GreaterThan": lv_ > rv_, "GreaterThanOrEqual": lv_ >= rv_, "LessThan": lv_ < rv_, "LessThanOrEqual": lv_ <= rv_}
             truth = False
             for j, o in enumerate(CMP):
@@ -526,10 +537,10 @@ def replay_engine(t):
         fld = FIELDS[m["leaf%d_field" % idx]]
         op = CMP[m["leaf%d_op" % idx]]
         rk = m["leaf%d_rhs_kind" % idx]
-        rhs = {0: "Value::Integer(%d)" % FACT_INTS[m["leaf%d_rhs_int" % idx]], 1: 'Value::String("%s".to_string())' % ("x" if m["leaf%d_rhs_ref" % idx] == 0 else "y"),
-               2: "Value::Null", 3: 'Value::String("zzz".to_string())'}[rk]
+        rhs = {0: "Value::Integer(%d)" % FACT_INTS[m["leaf%d_rhs_int" % idx]], 1: 'Value::String("%s".to_string())' % ["x", "y", "s"][m["leaf%d_rhs_ref" % idx]],
+               2: "Value::Null", 3: 'Value::String("zzz".to_string())', 4: 'Value::Expression("%s".to_string())' % ["x", "y", "s"][m["leaf%d_rhs_ref" % idx]]}[rk]
         rust = 'ConditionGroup::single(Condition::new("%s".to_string(), Operator::%s, %s))' % (fld, op, rhs)
-        ref = 'leaf(&env, "%s", "%s", %d, %d, "%s")' % (fld, op, rk, FACT_INTS[m["leaf%d_rhs_int" % idx]], "x" if m["leaf%d_rhs_ref" % idx] == 0 else "y")
+        ref = 'leaf(&env, has_s, "%s", "%s", %d, %d, "%s")' % (fld, op, rk, FACT_INTS[m["leaf%d_rhs_int" % idx]], ["x", "y", "s"][m["leaf%d_rhs_ref" % idx]])
         return rust, ref
     pos = [0]
 
@@ -563,6 +574,9 @@ def replay_engine(t):
         if m["has_" + name]:
             sets.append('facts.set("%s", Value::Integer(%d));' % (name, FACT_INTS[m["val_" + name]]))
             env.append('("%s", %d)' % (name, FACT_INTS[m["val_" + name]]))
+    if m["has_s"]:
+        sets.append('facts.set("s", Value::String("x".to_string()));')
+    sets.append("let has_s = %s;" % str(bool(m["has_s"])).lower())
     sets.append('{ let mut o = HashMap::new(); o.insert("n".to_string(), Value::Integer(%d)); facts.set("obj", Value::Object(o)); }' % FACT_INTS[m["val_obj_n"]])
     env.append('("obj.n", %d)' % FACT_INTS[m["val_obj_n"]])
     return """
@@ -572,11 +586,14 @@ use rust_rule_engine::engine::knowledge_base::KnowledgeBase;
 use rust_rule_engine::engine::rule::{Condition, ConditionGroup, Rule};
 use rust_rule_engine::types::{ActionType, Operator, Value};
 use std::collections::HashMap;
-fn leaf(env: &Vec<(&str, i64)>, field: &str, op: &str, rk: i32, rint: i64, rref: &str) -> bool {
+fn leaf(env: &Vec<(&str, i64)>, has_s: bool, field: &str, op: &str, rk: i32, rint: i64, rref: &str) -> bool {
     let l = env.iter().find(|e| e.0 == field).map(|e| e.1);
-    let r: Option<i64> = match rk { 0 => Some(rint), 1 => env.iter().find(|e| e.0 == rref).map(|e| e.1), _ => None };
+    let l_is_str = field == "s" && has_s;
+    let l_missing = l.is_none() && !l_is_str;
+    let r: Option<i64> = match rk { 0 => Some(rint), 1 | 4 if rref != "s" => env.iter().find(|e| e.0 == rref).map(|e| e.1), _ => None };
     let r_null = rk == 2;
-    let eq = match (l, r) { (Some(a), Some(b)) => a == b, (None, _) if r_null => true, _ => false };
+    let r_text_x = ((rk == 1 || rk == 4) && rref == "s" && has_s) || (rk == 1 && rref == "x" && !env.iter().any(|e| e.0 == "x"));
+    let eq = match (l, r) { (Some(a), Some(b)) => a == b, _ => (l_missing && r_null) || (l_is_str && r_text_x) };
     match op { "Equal" => eq, "NotEqual" => !eq,
         _ => match (l, r) { (Some(a), Some(b)) => match op { "GreaterThan" => a > b, "GreaterThanOrEqual" => a >= b, "LessThan" => a < b, _ => a <= b }, _ => false } }
 }
